@@ -17,8 +17,10 @@ query or navigation functions.  Expected results:
               association class where the schema has no direct link) -> duplicates removed keeping first
               occurrences; this must also equal, as a set, the image of the start set under the composition of
               the link relations; filters/orderings given to the final call apply to that sequence; the
-              single-result forms give its first element or None
-  subtype     the one subtype instance related across the association number (None when there is none; when a
+              single-result forms give its first element or None; a start sequence may hold instances of several
+              classes when each of them has the first step (query 'cls' None): the partner list of an instance is
+              then the one of its own class
+  subtype    the one subtype instance related across the association number (None when there is none; when a
               state holds several, any of them is accepted)
 
 Clauses: select-many-contents, select-many-order, select-one-first-or-none, select-any-first-or-none,
@@ -275,11 +277,29 @@ def _start(w, desc):
     raise ValueError(desc)
 
 
+def _hop_of(ref, cls, kind, rel, phrase):
+    """instance -> ordered partner list for one step; cls None = a handle holding instances of several classes: the
+    per-instance result of an instance is the partner list of the step taken from its own class."""
+    if cls is not None:
+        return ref.step_relation(cls, kind, rel, phrase)
+    hops = {}
+
+    def hop(x):
+        c = ref.inst[x]['cls']
+        if c not in hops:
+            hops[c] = ref.step_relation(c, kind, rel, phrase)
+        if hops[c] is None:
+            raise Invalid()
+        return hops[c](x)
+    return hop
+
+
 def ref_navigate(ref, start_cls, start, path):
-    """Ordered evaluation: concatenate the per-instance results step by step, then drop repeated elements."""
+    """Ordered evaluation: concatenate the per-instance results step by step, then drop repeated elements.
+    start_cls None: the start holds instances of several classes (the first step is taken per instance from its own class)."""
     cur, cls = list(start), start_cls
     for kind, rel, phrase in [p[:3] for p in path]:
-        hop = ref.step_relation(cls, kind, rel, phrase)
+        hop = _hop_of(ref, cls, kind, rel, phrase)
         if hop is None:
             raise Invalid()
         nxt = []
@@ -299,8 +319,17 @@ def ref_compose(ref, start_cls, start, path):
     alive = [i for i, r in enumerate(ref.inst) if r['alive']]
     relation = set((x, x) for x in set(start))
     for kind, rel, phrase in [p[:3] for p in path]:
-        hop = ref.step_relation(cls, kind, rel, phrase)
-        pairs = set((y, z) for y in alive if ref.inst[y]['cls'] == cls for z in hop(y))
+        if cls is None:
+            # the link relation of the step = union of the link relations of the classes found in the start set
+            pairs = set()
+            for c in sorted(set(ref.inst[x]['cls'] for x in start)):
+                hop = ref.step_relation(c, kind, rel, phrase)
+                if hop is None:
+                    raise Invalid()
+                pairs |= set((y, z) for y in alive if ref.inst[y]['cls'] == c for z in hop(y))
+        else:
+            hop = ref.step_relation(cls, kind, rel, phrase)
+            pairs = set((y, z) for y in alive if ref.inst[y]['cls'] == cls for z in hop(y))
         relation = set((x, z) for (x, y) in relation for (y2, z) in pairs if y == y2)
         cls = kind
     return set(z for (_, z) in relation)
@@ -310,7 +339,13 @@ def eval_nav(w, q):
     """q = {'cls': start class, 'start': start descriptor, 'path': [[kind, rel, phrase, syntax], ...], 'fn': 'many'|'any'|'one', 'ops': [...]}"""
     ref = w.ref
     handle, start = _start(w, q['start'])
-    if any(not (0 <= i < len(ref.inst)) or not ref.inst[i]['alive'] or ref.inst[i]['cls'] != q['cls'] for i in start):
+    if any(not (0 <= i < len(ref.inst)) or not ref.inst[i]['alive'] for i in start):
+        raise Invalid()
+    if q['cls'] is None:
+        # a handle over several classes: needs a first step, and every class in the handle must offer it
+        if not q['path'] or any(ref.step_relation(ref.inst[i]['cls'], *q['path'][0][:3]) is None for i in start):
+            raise Invalid()
+    elif any(ref.inst[i]['cls'] != q['cls'] for i in start):
         raise Invalid()
     seq = ref_navigate(ref, q['cls'], start, q['path'])
     as_set = ref_compose(ref, q['cls'], start, q['path'])
@@ -415,6 +450,81 @@ def nav_queries(w, rng, n3, n4):
                 st = rng.choice(starts + sets)
                 fn = rng.choice(('many', 'any') if st[0] not in ('none', 'inst') else ('many', 'any', 'one'))
                 yield dict(cls=cname, start=st, path=p, fn=fn, ops=ops)
+
+
+_MIXED = {}
+
+
+def _linked(schema, cname, step):
+    """Does the schema give class cname the step (kind, rel, phrase) as a direct link, or through an association class
+    (a class that refers to both cname and kind across rel)?"""
+    kind, rel, phrase = step
+    refs_c, refs_k = set(), set()
+    for ai, a in enumerate(schema['assocs']):
+        if a['rel'] != rel:
+            continue
+        if (a['tgt'], a['src'], a['tgt_phrase']) == (cname, kind, phrase) or (a['src'], a['tgt'], a['src_phrase']) == (cname, kind, phrase):
+            return True
+        if a['tgt'] == cname and a['tgt_phrase'] == phrase:
+            refs_c.add((a['src'], ai))
+        if a['tgt'] == kind and a['src_phrase'] == phrase:
+            refs_k.add((a['src'], ai))
+    return any(m1 == m2 and a1 != a2 for m1, a1 in refs_c for m2, a2 in refs_k)
+
+
+def mixed_groups(schema_name):
+    """[(first step (kind, rel, phrase), [classes that offer it])] for the steps that two or more classes offer through a
+    link of their own or through an association class (subtypes towards their common supertype; an association class and
+    a participant towards the other participant)."""
+    if schema_name not in _MIXED:
+        steps = M.schema_steps(schema_name)
+        schema = SCHEMAS[schema_name]
+        by = {}
+        for c in schema['classes']:
+            for st in steps[c['name']]:
+                if _linked(schema, c['name'], tuple(st)):
+                    by.setdefault(tuple(st), []).append(c['name'])
+        _MIXED[schema_name] = [(list(st), cs) for st, cs in by.items() if len(cs) >= 2]
+    return _MIXED[schema_name]
+
+
+def mixed_nav_queries(w, rng, nlong):
+    """Navigations whose starting handle holds instances of more than one class, all of which offer the first step."""
+    ref = w.ref
+    schema = w.state['schema']
+    forms = ('queryset', 'list', 'gen', 'tuple', 'iter')
+    k = 0
+    for first, classes in mixed_groups(schema):
+        per = [ref.instances(c) for c in classes]
+        if sum(1 for p in per if p) < 2:
+            continue
+        pool = sorted(i for p in per for i in p)
+        grouped = [i for p in per for i in p]
+        rgrouped = [i for p in reversed(per) for i in p]
+        handles = [pool, pool[::-1], grouped, rgrouped, (grouped + grouped)[:len(grouped) + 2]]
+        pairs = [[x, y] for x in pool for y in pool if ref.inst[x]['cls'] != ref.inst[y]['cls']]
+        handles += pairs if len(pairs) <= 6 else rng.sample(pairs, 6)
+        plist = []
+        for ln in (0, 1):
+            plist += paths(schema, first[0], ln)
+        for ln in (2, 3):
+            ps = paths(schema, first[0], ln)
+            plist += ps if len(ps) <= nlong else rng.sample(ps, nlong)
+        alpha = alphabet(ref, first[0], rng)
+        for rest in plist:
+            p = [st + [rng.randint(0, 3)] for st in [first] + rest]
+            short = len(p) <= 2
+            for h in (handles if short else rng.sample(handles, min(3, len(handles)))):
+                k += 1
+                form = forms[k % len(forms)]
+                for fn in ('many', 'any'):
+                    yield dict(cls=None, start=[form, h], path=p, fn=fn, ops=[])
+            if len(p) == 1:
+                # with filters / orderings on the final call
+                for _ in range(3):
+                    k += 1
+                    yield dict(cls=None, start=[forms[k % len(forms)], rng.choice(handles)], path=p,
+                               fn=rng.choice(('many', 'any')), ops=rng.sample(alpha, rng.randint(1, 2)))
 
 
 def subtype_queries(w):
@@ -563,8 +673,13 @@ def shrink(state, evaluator, q, clause):
 def _run(ctx, what, evaluator, queries_of):
     import random
     done = 0
+    count = {True: 0, False: 0}
     for k, state in enumerate(states(ctx, what)):
-        if k % ctx.nshards != ctx.shard:
+        # the states over the full schema cost ~100 times more than the ones over the mini schema and sit at every 5th
+        # position of the list: both kinds are dealt round-robin separately so that no shard gets all the expensive ones
+        heavy = state['schema'] != 'mini'
+        count[heavy] += 1
+        if (count[heavy] - 1) % ctx.nshards != ctx.shard:
             continue
         if ctx.expired():
             ctx.exhausted = False
@@ -622,7 +737,12 @@ def select(ctx):
       bound=_STATES_BOUND + '; navigations: every chain of 1-2 steps the schema offers (direct links and shortcuts through association classes) and '
             '12+12 (quick) / 30+30 (thorough) sampled chains of 3 and 4 steps per class and state, from None, every instance, the selected query set, '
             'a query set in reverse order, lists (also with a repeated element, also empty), a tuple, a generator and an iterator, with navigate_many/any/one, '
-            '.nav() and [..] syntax, number and "R<n>" form; final call without and with 1-2 filters/orderings; navigate_subtype from every supertype instance and None',
+            '.nav() and [..] syntax, number and "R<n>" form; final call without and with 1-2 filters/orderings; navigate_subtype from every supertype instance and None; '
+            'handles holding instances of several classes (full schema: the 6 first steps that two classes offer through a link of their own or through an '
+            'association class -- both subtypes to the supertype, both participants to the association class, association class + participant to the '
+            'other participant): all live instances of those classes in creation / reverse / class-by-class order, with repeated elements, and <= 6 '
+            'two-instance handles, as query set, list, tuple, generator, iterator, continued by every chain of 0-1 further steps and 3+3 (quick) / 8+8 '
+            '(thorough) sampled chains of 2 and 3 further steps, navigate_many/any, without and with 1-2 filters/orderings',
       shards=10, weight=3)
 def navigate(ctx):
     n = 12 if ctx.quick else 30
@@ -632,6 +752,8 @@ def navigate(ctx):
             yield q
         for q in subtype_queries(w):
             yield dict(q, subtype=True)
+        for q in mixed_nav_queries(w, rng, 3 if ctx.quick else 8):
+            yield q
 
     def evaluator(w, q):
         return eval_subtype(w, q) if q.get('subtype') else eval_nav(w, q)
